@@ -113,7 +113,7 @@ def run(ctx):
     search_ok = True
     cache = {}
     nontrivial = set()
-    dist = {"500": 0, "closed after output": 0, "disconnect": 0, "escaped": 0, "completed": 0, "swallowed": 0}
+    dist = {"500": 0, "closed after output": 0, "disconnect": 0, "escaped": 0, "completed": 0, "raised before output, no 500 (ClientDisconnected or client gone)": 0}
     by_class = {}
     samples = []
     for i, ((tag, case), ans) in enumerate(zip(cases, answers)):
@@ -138,7 +138,7 @@ def run(ctx):
         elif raised and raised[0][1] > 0:
             dist["closed after output"] += 1
         elif raised:
-            dist["swallowed"] += 1
+            dist["raised before output, no 500 (ClientDisconnected or client gone)"] += 1
         elif case["disc"] is not None:
             dist["disconnect"] += 1
         else:
